@@ -716,6 +716,14 @@ def run(ctx):
     if sum(1 for f in fxs if f.get("crafted") and f["nomsg"] >= 40) < 4:
         ctx.obligation_broken("generator", "fewer than 4 crafted journals with >= 40 MESSAGE-less entries", str([(f["name"], f.get("nomsg")) for f in crafted]))
 
+    # more containers of the base journals: tar archives (ustar / GNU / pax, member paths around and beyond the 100-byte
+    # header name) and copies whose modification times are older than every entry (the window looks at receive times only)
+    extra_labels = {}
+    for fx in fxs:
+        if not fx.get("crafted"):
+            ex = c09_render.extra_containers(scratch, fx, quick)
+            fx["containers"] = list(fx["containers"]) + ex
+            extra_labels[fx["name"]] = [l for l, _ in ex]
     # ---- plan the runs
     runner = Runner(scratch)
     jobs = []
@@ -1064,6 +1072,7 @@ def run(ctx):
         parser_twin_streams=len(streams), parser_twin_malformed_streams=parse_malformed, parser_twin_disagreements=len(pbad or []),
         text_rule_cases=ts_cases, text_rule_model_disagreements=ts_dis,
         oracle_J1_samples=j1_samples, temp_files_left=len(runner.leftovers), hangs=runner.hangs,
+        extra_containers=extra_labels,
         renderings=dict(
             what="the ten --journal-output renderings: binary stdout vs Model.JournalRender (src_cfg regenerated from the source) byte for byte on chunks of consecutive entries (window = the chunk) under several --tz-offset values, windows inside a chunk through journal_stdout10; the same runs vs the python spec; the python spec vs journalctl entry by entry with every difference classified",
             binary_runs_compared_byte_for_byte=rstats["rr_runs"], of_which_windows_inside_a_chunk=rstats["rr_window_runs"],
@@ -1079,6 +1088,7 @@ def run(ctx):
     ctx.assumptions += [
         "libsystemd is an oracle: contract J1 (seek_realtime_usec + next enumerate exactly the entries with t >= A in file order when receive times are non-decreasing; seek_head all) is a hypothesis of the theorems, sampled on the real library each run; enumeration of data objects, cursors and monotonic times are taken from it",
         "journalctl --file (systemd %s) -o export/cat/json is the ground truth for entry content; its export differs from the enumeration order only in the position of _BOOT_ID" % systemd_version(),
+        "containers: the shipped gz/bz2/xz/lz4 files, python-made gz/bz2/xz, tar archives written by python tarfile in ustar, GNU and pax format with member paths of 20..300 bytes, and copies whose file-system / gzip-header / tar-member modification time is 2001-01-01 (older than every entry and every -a bound); each must print what the plain file prints",
         "journal fixtures with non-decreasing, positive receive times (all shipped ones; libsystemd VALID_REALTIME); bounds below 2^64 microseconds (bounds before 1970 included); entries have fewer than 200 fields",
         "the ten renderings are compared byte for byte with Model.JournalRender on sampled chunks of every journal (all chunks in the thorough tier); the constants and tables of the model (formats, dispatch, FIELD_ORDER_VERBOSE, keys, emergency bounds, DT_USES_SOURCE_OVERRIDE) are regenerated from the source by tools/gen/journal.py, the control flow of next_short / next_verbose is a hand transcription tied only by that comparison",
         "python spec of the renderings (timestamps by python datetime, field assembly of journalctl short, verbose = header + one line per stored data object) is hand-written and is itself compared with journalctl --file entry by entry; the differences between s4 and journalctl are the enumerated classes D1..D9 of checks/c09_render.py, counted in coverage.renderings.journalctl",
@@ -1154,6 +1164,8 @@ def replay(ctx, path):
             if not good:
                 bad += 1
             continue
+        if c["container"] != "plain" and c["container"] not in dict(fx["containers"]):
+            fx["containers"] = list(fx["containers"]) + c09_render.extra_containers(scratch, fx, False, only=c["container"])
         path_ = dict(fx["containers"]).get(c["container"], fx["plain"])
         tz = None
         if c.get("tz_offset"):
